@@ -10,6 +10,7 @@ package props
 
 import (
 	"context"
+	"errors"
 	"fmt"
 	"io"
 	"net"
@@ -514,11 +515,17 @@ type C18Stop struct {
 	Backlog    int `json:"backlog"`     // connections waiting before serving starts
 	CloseAfter int `json:"close_after"` // the listener is closed as soon as this many were accepted
 	HandleMs   int `json:"handle_ms"`
+	// bit i set: the handler of the i-th accepted connection fails (panics) instead of returning; serving recovers
+	// from that, and the connection's socket is closed all the same
+	PanicMask int `json:"panic_mask,omitempty"`
 }
 
 func genC18Stop(t *rapid.T) C18Stop {
 	c := C18Stop{Backlog: rapid.IntRange(1, 6).Draw(t, "backlog"), HandleMs: rapid.SampledFrom([]int{1, 5, 20}).Draw(t, "handleMs")}
 	c.CloseAfter = rapid.IntRange(1, c.Backlog).Draw(t, "closeAfter")
+	if rapid.Bool().Draw(t, "panics") {
+		c.PanicMask = rapid.IntRange(1, 63).Draw(t, "panicMask")
+	}
 	return c
 }
 
@@ -544,11 +551,23 @@ func runC18Stop(c C18Stop, info *kit.Info) *kit.Finding {
 		clients = append(clients, cn)
 	}
 	var accepted, finished atomic.Int32
+	var held []*net.TCPConn // keeps the server-side conns referenced, so that no finalizer closes a forgotten socket
+	var heldMu sync.Mutex
+	defer func() {
+		heldMu.Lock()
+		for _, cn := range held {
+			cn.Close()
+		}
+		heldMu.Unlock()
+	}()
 	accept := func() (transport.StreamConn, error) {
 		cn, err := l.AcceptTCP()
 		if err != nil {
 			return nil, err
 		}
+		heldMu.Lock()
+		held = append(held, cn)
+		heldMu.Unlock()
 		if int(accepted.Add(1)) == c.CloseAfter {
 			l.Close()
 		}
@@ -556,9 +575,14 @@ func runC18Stop(c C18Stop, info *kit.Info) *kit.Finding {
 	}
 	done := make(chan int32, 1)
 	go func() {
+		var nth atomic.Int32
 		service.StreamServe(accept, func(ctx context.Context, conn transport.StreamConn) {
+			i := int(nth.Add(1)) - 1
 			time.Sleep(time.Duration(c.HandleMs) * time.Millisecond)
 			finished.Add(1)
+			if c.PanicMask&(1<<i) != 0 {
+				panic(fmt.Sprintf("generated handler failure on connection %d", i))
+			}
 		})
 		done <- finished.Load()
 	}()
@@ -569,6 +593,23 @@ func runC18Stop(c C18Stop, info *kit.Info) *kit.Finding {
 		}
 	case <-time.After(5 * time.Second):
 		return kit.Violation("robust:handle-did-not-return", "StreamServe did not return within 5 s of its listener closing")
+	}
+	// serving is over and every handler has returned (or failed): every socket it accepted is closed, so every
+	// client sees its connection end (those left in the backlog of the closed listener are reset by the kernel)
+	for i, cn := range clients {
+		cn.SetReadDeadline(time.Now().Add(3 * time.Second))
+		_, err := cn.Read(make([]byte, 1))
+		var ne net.Error
+		if err == nil || (errors.As(err, &ne) && ne.Timeout()) {
+			how := "returned"
+			if c.PanicMask&(1<<i) != 0 {
+				how = "failed (panicked)"
+			}
+			return kit.Violation("robust:socket-left-open", "StreamServe has returned, the handler of connection %d has %s, and the connection is still open 3 s later: its socket was never closed (%d accepted, %+v)", i, how, accepted.Load(), c)
+		}
+	}
+	if c.PanicMask != 0 {
+		info.Class("handler_panics")
 	}
 	info.NonTrivial, info.Steps = true, c.Backlog
 	return nil
